@@ -9,6 +9,7 @@ import (
 	"testing"
 
 	sdkmath "cosmossdk.io/math"
+	banktypes "github.com/cosmos/cosmos-sdk/x/bank/types"
 	sdk "github.com/cosmos/cosmos-sdk/types"
 	vestexported "github.com/cosmos/cosmos-sdk/x/auth/vesting/exported"
 	vestingtypes "github.com/cosmos/cosmos-sdk/x/auth/vesting/types"
@@ -29,6 +30,9 @@ type c16Step struct {
 	Target    int    `json:"target"`    // extra-key index of the account to prove / to create
 	Sig       string `json:"sig"`       // valid | otherkey | othermsg | truncated | extended | uppercase | v27 | random | malleated | no0x
 	Nest      int    `json:"nest"`      // exec nesting depth for vesting messages (0 = top level)
+	// Layout places harmless siblings around a nested vesting message (only with Nest > 0):
+	// "" single chain | cleanfirst-top: [exec[send], chain] | cleanfirst-inner: exec[exec[send], chain-1] | sendfirst-inner: exec[send, chain-1]
+	Layout string `json:"layout,omitempty"`
 }
 
 type c16Case struct {
@@ -68,6 +72,9 @@ func genC16(t *rapid.T) c16Case {
 		if rapid.IntRange(0, 2).Draw(t, "isvest") == 2 {
 			s.Kind = rapid.SampledFrom([]string{"vest", "vestperiodic", "vestperm"}).Draw(t, "vkind")
 			s.Nest = rapid.SampledFrom([]int{0, 0, 0, 1, 2, 3}).Draw(t, "nest")
+			if s.Nest > 0 {
+				s.Layout = rapid.SampledFrom([]string{"", "cleanfirst-top", "cleanfirst-inner", "sendfirst-inner"}).Draw(t, "layout")
+			}
 			if s.Submitter > 3 {
 				s.Submitter = 0
 			}
@@ -179,11 +186,35 @@ func runC16(cs c16Case) *Outcome {
 		case "vestperm":
 			msg = vestingtypes.NewMsgCreatePermanentLockedAccount(chain.K(st.Submitter).Acc(), target.Acc(), coins)
 		}
-		for d := 0; d < st.Nest; d++ {
-			ex := authz.NewMsgExec(chain.K(st.Submitter).Acc(), []sdk.Msg{msg})
-			msg = &ex
+		subAcc := chain.K(st.Submitter).Acc()
+		wrap := func(inner ...sdk.Msg) sdk.Msg {
+			ex := authz.NewMsgExec(subAcc, inner)
+			return &ex
 		}
-		bz, err := chain.CosmosTx{Signer: st.Submitter, Msgs: []sdk.Msg{msg}, Gas: 400000, FeeAmount: c16TxFee}.Build(c.TxCfg, c.World.CID(), accNum, seq)
+		harmless := func() sdk.Msg {
+			return banktypes.NewMsgSend(subAcc, chain.K(0).Acc(), sdk.NewCoins(sdk.NewCoin(chain.Denom, sdkmath.NewInt(1))))
+		}
+		msgs := []sdk.Msg{msg}
+		if st.Nest > 0 {
+			depth := st.Nest
+			if st.Layout == "cleanfirst-inner" || st.Layout == "sendfirst-inner" {
+				depth--
+			}
+			for d := 0; d < depth; d++ {
+				msg = wrap(msg)
+			}
+			switch st.Layout {
+			case "cleanfirst-top":
+				msgs = []sdk.Msg{wrap(harmless()), msg}
+			case "cleanfirst-inner":
+				msgs = []sdk.Msg{wrap(wrap(harmless()), msg)}
+			case "sendfirst-inner":
+				msgs = []sdk.Msg{wrap(harmless(), msg)}
+			default:
+				msgs = []sdk.Msg{msg}
+			}
+		}
+		bz, err := chain.CosmosTx{Signer: st.Submitter, Msgs: msgs, Gas: 400000, FeeAmount: c16TxFee}.Build(c.TxCfg, c.World.CID(), accNum, seq)
 		if err != nil {
 			o.label("unbuildable")
 			continue
